@@ -1,13 +1,15 @@
 #!/bin/sh
-# usage: tools/mut.sh <patch.diff> <check id> [<check id> ...]   — apply a mutation to /repo, run checks, revert.
+# usage: tools/mut.sh <patch.diff> <check id> [<check id> ...]
+# Apply a mutation to a scratch worktree at /repo's HEAD, run the checks against it (VERIF_REPO), reset the worktree.
 p=$(realpath "$1"); shift
-cd /repo || exit 2
-git diff --quiet || { echo "repo dirty, refusing"; exit 2; }
+WT=${SEED_WT:-/tmp/mut_wt}
+[ -d "$WT" ] || git -C /repo worktree add --detach "$WT" >/dev/null 2>&1 || exit 2
+cd "$WT" || exit 2
+git reset -q --hard && git checkout -q --detach "$(git -C /repo rev-parse HEAD)"
 git apply "$p" || { echo "patch does not apply"; exit 2; }
-trap 'git -C /repo checkout -- . ' EXIT INT TERM
-rc=0
 for id in "$@"; do
-  out=$(cd /verif && ./check "$id" --no-evidence 2>&1); c=$?
+  out=$(cd /verif && VERIF_REPO="$WT" ./check "$id" --no-evidence 2>&1); c=$?
   n=$(echo "$out" | grep -c '^VIOLATION')
   echo "== $(basename "$p") $id exit=$c violations=$n $(echo "$out" | grep -m1 '  key=' )"
 done
+git reset -q --hard
